@@ -14,7 +14,7 @@ fi
 coq_makefile -f _CoqProject -o Makefile >/dev/null
 timeout 1800 make -j16 > "$VERIF/build/make.log" 2>&1 || { tail -40 "$VERIF/build/make.log"; exit 1; }
 cd "$VERIF/build/extract"
-if [ ! -x vchk ] || [ "$VERIF/coq/Valid/Run.vo" -nt vchk ] || [ "$VERIF/ocaml/driver.ml" -nt vchk ]; then
+if [ ! -x vchk ] || [ "$VERIF/coq/Valid/Dispatch.vo" -nt vchk ] || [ "$VERIF/ocaml/driver.ml" -nt vchk ]; then
   timeout 600 coqc -Q "$VERIF/coq" V -o "$VERIF/build/extract/Extract.vo" "$VERIF/coq/Extract/Extract.v" > extract.log 2>&1 || { cat extract.log; exit 1; }
   cp "$VERIF/ocaml/driver.ml" .
   timeout 600 ocamlfind ocamlopt -O2 -w -a vchk.mli vchk.ml driver.ml -o vchk > ocaml.log 2>&1 || { cat ocaml.log; exit 1; }
